@@ -2,6 +2,7 @@ package main
 
 import (
 	"fmt"
+	"go/token"
 	"go/types"
 	"strings"
 
@@ -53,6 +54,7 @@ func ruleC06(r *Report) {
 	checkC06Signed(r, p)
 	checkC06Post(r, p)
 	checkC06Ctx(r, p)
+	checkConfigReadOnly(r, p, "C06.ctx", "saml", "IdentityProvider")
 }
 
 // assertionMakerFn: role = method named by the AssertionMaker interface on the default maker.
@@ -786,6 +788,7 @@ func checkC06Ctx(r *Report, p *Prog) {
 		}
 	}
 	okPriv, okChain := false, false
+	chainWhy := "the chain handed to the signing context does not start with the IdP's certificate"
 	for _, c := range rg.all {
 		cfc := rg.Ctx(a, c)
 		r.Fn(p.FnName(c.fn))
@@ -800,6 +803,10 @@ func checkC06Ctx(r *Report, p *Prog) {
 					if ia, ok := st.Addr.(*ssa.IndexAddr); ok {
 						if k, ok := constInt(ia.Index); ok && k == 0 && strings.HasSuffix(cfc.AP(st.Val), "IdpAuthnRequest.IDP.Certificate.Raw") {
 							okChain = true
+							if why := headOverwritten(p, ia.X, st); why != "" {
+								okChain = false
+								chainWhy = why
+							}
 						}
 					}
 				}
@@ -807,7 +814,7 @@ func checkC06Ctx(r *Report, p *Prog) {
 		}
 	}
 	r.Check(okKey && okPriv, rule, p.FnName(fn)+": signs with the IdP's Signer, else the IdP's Key", p.Pos(fn.Pos()), "Signer / Key of req.IDP", "the signing key does not come from the IdP configuration")
-	r.Check(okChain, rule, p.FnName(fn)+": certificate chain starts with the IdP certificate", p.Pos(fn.Pos()), "chain[0] = req.IDP.Certificate.Raw", "the chain handed to the signing context does not start with the IdP's certificate")
+	r.Check(okChain, rule, p.FnName(fn)+": certificate chain starts with the IdP certificate", p.Pos(fn.Pos()), "chain[0] = req.IDP.Certificate.Raw", chainWhy)
 	// method
 	for _, c := range methodCallsOn(fn, "(*"+dsigPath+".SigningContext).SetSignatureMethod") {
 		var ls []string
@@ -868,4 +875,40 @@ func helperLitFields(p *Prog, fn *ssa.Function, pkg, typ, field string) []*ssa.S
 		}
 	}
 	return out
+}
+
+// headOverwritten: base is the array or slice whose element 0 the store first writes; reports another element store
+// into it that may also land on index 0 (a second constant 0, or a computed index not of the form induction+k, k >= 1).
+func headOverwritten(p *Prog, base ssa.Value, first *ssa.Store) string {
+	if base.Referrers() == nil {
+		return ""
+	}
+	for _, rf := range *base.Referrers() {
+		ia, ok := rf.(*ssa.IndexAddr)
+		if !ok || ia.X != base {
+			continue
+		}
+		for _, r2 := range *ia.Referrers() {
+			st, ok := r2.(*ssa.Store)
+			if !ok || st.Addr != ssa.Value(ia) || st == first {
+				continue
+			}
+			if k, ok := constInt(ia.Index); ok {
+				if k == 0 {
+					return "element 0 of the chain is written a second time at " + p.InstrPos(st)
+				}
+				continue
+			}
+			if bo, ok := ia.Index.(*ssa.BinOp); ok && bo.Op == token.ADD {
+				if k, ok := constInt(bo.Y); ok && k >= 1 && nonNegInduction(bo.X) {
+					continue
+				}
+				if k, ok := constInt(bo.X); ok && k >= 1 && nonNegInduction(bo.Y) {
+					continue
+				}
+			}
+			return "an element store at a computed index that may be 0 (" + p.InstrPos(st) + ") can overwrite the leaf certificate at the head of the chain"
+		}
+	}
+	return ""
 }
